@@ -26,13 +26,14 @@ LEVEL_TEXT = ('static analysis: (D1) copy-on-write lost-write rule over cnvlib/s
               "names (a name recurring after another gene is listed once), over iter_slices(bins, segments, 'outer', keep_empty=False) taken "
               "after the endpoints were stretched (so filtered edge bins are included; the segment table's row labels may repeat); segment_none: "
               'first start, last end, probes = number of bins, log2 = segment_mean (weight-averaged, plain mean when no weight is positive); (D4)'
-              ' every name in SEGMENT_METHODS selects a branch of _do_segmentation (none falls through to the error), the CLI choices are that '
-              'tuple, (D5) do_segmentation interpreted for every method x 1 / 3 processes x save_dataframe with the pool, by_arm, the worker and '
-              'concat stubbed: none / haar / cbs segment every arm exactly once, in order, with every option of the caller (the worker stub binds'
-              ' its arguments like the real signature), the parts are combined in arm order through GenomicArray.concat (which sorts), the R '
+              ' every name in SEGMENT_METHODS reaches its own segmenter (none falls through to the error), the CLI choices are that '
+              'tuple, (D5) do_segmentation interpreted for every method x 1 / 3 processes (x save_dataframe for the R methods) with the pool, by_arm and '
+              'concat stubbed and the private worker running as written -- what it does is recorded where it leaves the module (drop_low_coverage, rolling_outlier_quantile, the '
+              'segmenters with the options as their own signatures bind them, the R script written / run / read back): none / haar / cbs segment every arm exactly once, in order, '
+              'with every option of the caller, the parts are combined in arm order through GenomicArray.concat (which sorts), the R '
               'data-frame strings are stitched in that order; flasso / hmm* segment the whole array once; an unknown method raises; pool results '
-              "are consumed through Executor.map; (D6) neither do_segmentation nor _do_segmentation may mutate the caller's array (effects fix-"
-              'point). (D3b) the bins reaching the segmenter are those surviving every enabled filter, a null-coverage bin being one with the '
+              "are consumed through Executor.map; (D6) neither do_segmentation nor the function it hands its bins to (found by that role) may mutate the caller's array (effects fix-"
+              'point; observed too: D3b / D4 compare the caller\'s table before and after every run). (D3b) the bins reaching the segmenter are those surviving every enabled filter, a null-coverage bin being one with the '
               'placeholder log2 or with depth 0. (D3c) transfer_fields as the whole-array methods call it -- a three-chromosome bin table with '
               "any edge chromosome wholly filtered out -- leaves every segment inside its own chromosome's bin span with positive length (no "
               "stretch to another chromosome's bins, no assertion failure); D3 also covers segments over antitarget / unnamed bins only (gene "
@@ -40,7 +41,7 @@ LEVEL_TEXT = ('static analysis: (D1) copy-on-write lost-write rule over cnvlib/s
               'segments (they belong to neither), D3b arms whose bins are all filtered (no segment, segmenter not called), and the bins / '
               "segments pairing per chromosome is the C07-D6 rule. The HMM methods' segments are the runs of equal state within a chromosome / "
               'arm: squash_by_groups on literal tables, unused levels and empty tables included (C14-D2 rule). (D4) which segmenter each declared'
-              ' method reaches is decided by interpreting _do_segmentation(<method>) on three bins of which the middle one is filtered out, the '
+              ' method reaches is decided by interpreting do_segmentation(<method>) on a one-arm table of three bins of which the middle one is filtered out, the '
               'segmenters, the R launcher and the SEG reader stubbed (the reader returning, as the R scripts do, a freshly numbered table -- one '
               "row per surviving bin for the fused lasso, whose rows must carry their own bins' weights); an unknown method raises. (D5) the arm "
               'tables reach the workers with every column of the bins. D3 has one-bin segments. Which bins are null coverage: drop_low_coverage '
@@ -280,10 +281,42 @@ def d3c(chk, prog):
     tb.done("a whole-array method's first / last segment is stretched to the bins of another chromosome (the one whose bins were all filtered out): it leaves its chromosome's span and can end before it starts")
 
 
+DOSEG = "cnvlib.segmentation.do_segmentation"
+
+
+def one_arm_model(model):
+    """do_segmentation as the entry to the per-table work (filters, dispatch, post-processing), whatever the private worker behind it is called and however it takes its
+    options: the table given is its one arm, the pool is serial, the single part is handed back as it is"""
+    model.method_prims["by_arm"] = lambda it, g, *a, **k: [("arm", g)]
+    model.prims["cnvlib.parallel.pick_pool"] = lambda it, n: PoolStub(it, n)
+    model.method_hooks.append(pool_hook)
+
+    def concat(it, g, others):
+        others = list(it.iterate(others))
+        if len(others) != 1:
+            raise Undecided(f"concat of {len(others)} parts for one arm")
+        return others[0]
+    model.method_prims["concat"] = concat
+    model.method_prims["sort_columns"] = lambda it, g: None
+    return model
+
+
+def run_seg(it, arr, method, par=None, threshold=None, variants=None, skip_low=False, skip_outliers=10, min_weight=0, save=False, rscript="Rscript", smooth=False):
+    return it.run(DOSEG, [arr, method, par, threshold, variants, skip_low, skip_outliers, min_weight, save, rscript, 1, smooth])
+
+
+def snapshot(arr):
+    return (arr.data.n, {c: list(v.v) for c, v in arr.data.cols.items()})
+
+
+def unchanged(arr, snap):
+    return arr.data.n == snap[0] and set(arr.data.cols) == set(snap[1]) and all(len(v.v) == len(snap[1][c]) and all(a is b or same(a, b) for a, b in zip(v.v, snap[1][c])) for c, v in arr.data.cols.items())
+
+
 def d3b(chk, prog):
     chk.clause("D3b", "the bins that reach the segmenter are exactly those surviving every enabled filter (low coverage, outliers, weight)")
-    fi = prog.fn("cnvlib.segmentation._do_segmentation")
-    tb = Table(chk, "filter-cascade", "_do_segmentation: rows handed to the segmenter (skip_low x skip_outliers x min_weight)", fi.loc(), fi.qn)
+    fi = prog.fn(DOSEG)
+    tb = Table(chk, "filter-cascade", "do_segmentation on a one-arm table: rows handed to the segmenter (skip_low x skip_outliers x min_weight); the caller's table unchanged", fi.loc(), fi.qn + "::filters")
     kinds = ["normal", "lowcov", "outlier", "zero-weight", "light", "at-min-weight", "normal2"]        # a weight equal to min_weight is not below it
     for skip_low, skip_out, min_weight, low_by in itertools.product([False, True], [0, 10], [0, Fr(1, 2)], ["placeholder log2", "zero depth"]):
         W.reset()
@@ -294,7 +327,8 @@ def d3b(chk, prog):
             w = {"zero-weight": Fr(0), "light": Fr(1, 4), "at-min-weight": Fr(1, 2)}.get(k, Fr(9, 10))
             rows.append(dict(chromosome="chr1", start=i * 100, end=i * 100 + 100, gene=k, log2=lg, depth=(0 if (k == "lowcov" and low_by == "zero depth") else Term.sym(f"d{i}", 1, INF)), weight=w))
         arr = make_ga("CopyNumArray", rows, {"sample_id": "S"}, index="any", exact=True)
-        model = Model()
+        before = snapshot(arr)
+        model = one_arm_model(Model())
         seen = {}
 
         def drop_outliers(it, cn, width, factor):
@@ -307,23 +341,23 @@ def d3b(chk, prog):
         model.prims["cnvlib.segmentation.none.segment_none"] = seg_none
         model.prims["cnvlib.segmentation.transfer_fields"] = lambda it, segarr, cnarr, *a, **k: segarr
         it = Interp(prog, model)
-        out = tb.guard(lambda: it.run(fi.qn, [arr, "none", None, None, None, skip_low, skip_out, min_weight]), f"skip_low={skip_low} skip_outliers={skip_out} min_weight={min_weight} low by {low_by}")
+        out = tb.guard(lambda: run_seg(it, arr, "none", None, None, None, skip_low, skip_out, min_weight), f"skip_low={skip_low} skip_outliers={skip_out} min_weight={min_weight} low by {low_by}")
         if out is None:
             continue
         want = [k for k in kinds if not (skip_low and k == "lowcov") and not (skip_out and k == "outlier") and not (k == "zero-weight") and not (min_weight and k == "light")]
-        tb.cell(seen.get("bins") == want and arr.data.n == len(kinds), dict(skip_low=skip_low, skip_outliers=skip_out, min_weight=str(min_weight), null_bin_by=low_by, bins_segmented=seen.get("bins"), want=want))
+        tb.cell(seen.get("bins") == want and unchanged(arr, before), dict(caller_table_unchanged=unchanged(arr, before), skip_low=skip_low, skip_outliers=skip_out, min_weight=str(min_weight), null_bin_by=low_by, bins_segmented=seen.get("bins"), want=want))
     # an arm that loses every bin to the filters yields no segment (its bins are not handed back as if they were segments)
     for why, skip_low, min_weight in (("null coverage", True, 0), ("zero weight", False, 0), ("below min_weight", False, Fr(1, 2))):
         W.reset()
         rows = [dict(chromosome="chrY", start=i * 100, end=i * 100 + 100, gene="g", log2=(Term.sym(f"v{i}", -INF, -16) if why == "null coverage" else Term.sym(f"v{i}", -10, 10)), depth=Term.sym(f"d{i}", 1, INF),
                      weight={"null coverage": Fr(9, 10), "zero weight": Fr(0), "below min_weight": Fr(1, 4)}[why]) for i in range(3)]
         arr = make_ga("CopyNumArray", rows, {"sample_id": "S"}, index="any", exact=True)
-        model = Model()
+        model = one_arm_model(Model())
         seen = {}
         model.prims["cnvlib.segmentation.none.segment_none"] = lambda it, cn, seen=seen: seen.setdefault("segmenter_called_on", cn.data.n) and cn
         model.prims["cnvlib.segmentation.transfer_fields"] = lambda it, segarr, cnarr, *a, **k: segarr
         it = Interp(prog, model)
-        out = tb.guard(lambda: it.run(fi.qn, [arr, "none", None, None, None, skip_low, 0, min_weight]), f"every bin filtered: {why}")
+        out = tb.guard(lambda: run_seg(it, arr, "none", None, None, None, skip_low, 0, min_weight), f"every bin filtered: {why}")
         if out is None:
             continue
         n_out = out.data.n if isinstance(out, GA) else None
@@ -353,16 +387,17 @@ def d4(chk, prog):
     if not methods:
         raise AnalysisError("SEGMENT_METHODS vanished")
     chk.floor("segmentation methods", len(methods), 7)
-    fi = prog.fn("cnvlib.segmentation._do_segmentation")
+    fi = prog.fn(DOSEG)
     # every method, interpreted: which segmenter receives the bins (the R methods: which script is run), with the method's own options; an unknown name raises
-    tbm = Table(chk, "method-dispatch", f"_do_segmentation(<method>) for the {len(methods)} declared methods and an unknown one: the segmenter that is run", fi.loc(), fi.qn + "::dispatch")
+    tbm = Table(chk, "method-dispatch", f"do_segmentation(<method>) on a one-arm table for the {len(methods)} declared methods and an unknown one: the segmenter that is run; the caller's table unchanged", fi.loc(), fi.qn + "::dispatch")
     cbs_script = ast.literal_eval(prog.module("cnvlib.segmentation.cbs").assigns["CBS_RSCRIPT"]) if "CBS_RSCRIPT" in prog.module("cnvlib.segmentation.cbs").assigns else None
     flasso_script = ast.literal_eval(prog.module("cnvlib.segmentation.flasso").assigns["FLASSO_RSCRIPT"]) if "FLASSO_RSCRIPT" in prog.module("cnvlib.segmentation.flasso").assigns else None
     for m in list(methods) + ["bogus"]:
         W.reset()
         rows = [dict(chromosome="chr1", start=i * 100, end=i * 100 + 100, gene="g", log2=Term.sym(f"v{i}", -10, 10), depth=Term.sym(f"d{i}", 1, INF), weight=(Fr(0) if i == 1 else Fr(9, 10))) for i in range(3)]
         arr = make_ga("CopyNumArray", rows, {"sample_id": "S"}, index="any", exact=True, labels=[0, 1, 2])          # the middle bin has no weight: it is filtered out, the survivors keep labels 0 and 2
-        model = Model()
+        before = snapshot(arr)
+        model = one_arm_model(Model())
         ran = []
         seg1 = make_ga("CopyNumArray", [dict(chromosome="chr1", start=0, end=300, gene="-", log2=0, probes=3)], {}, exact=True)
         model.prims["cnvlib.segmentation.haar.segment_haar"] = lambda it, cn, *a, ran=ran, **k: ran.append(("haar", cn.data.n, a)) or seg1
@@ -393,7 +428,7 @@ def d4(chk, prog):
         model.method_hooks.append(lambda it, obj, name, args, kw: "SEG OUTPUT" if isinstance(obj, bytes) and name == "decode" else NotImplemented)
         it = Interp(prog, model)
         try:
-            out = it.run(fi.qn, [arr, m, None, 0.01, None, False, 0, 0])
+            out = run_seg(it, arr, m, None, 0.01, None, False, 0, 0)
             raised = None
         except Raised as e:
             out, raised = None, str(e)
@@ -412,7 +447,7 @@ def d4(chk, prog):
         else:
             ok = raised is None and ("script", m) in ran and any(r[0] == "Rscript" and r[1] == "Rscript" and r[2] == "script.R" for r in ran) and ("read", "seg") in ran \
                 and (any(r[0] == "squash" and r[1] is True and r[2] == [repr(Fr(9, 10))] * 2 for r in ran)) == (m == "flasso") and not any(k_ in ("haar", "none", "hmm") for k_ in kinds)          # (the fitted rows carry their own bins' weights)
-        tbm.cell(ok, dict(method=m, ran=[repr(r)[:60] for r in ran], raised=raised))
+        tbm.cell(ok and unchanged(arr, before), dict(method=m, ran=[repr(r)[:60] for r in ran], raised=raised, caller_table_unchanged=unchanged(arr, before)))
     tbm.done("a declared segmentation method is not routed to its own segmenter with the surviving bins (the fused-lasso rows paired with their own bins' weights), or an unknown method name is accepted")
     # which methods run on the whole array / per arm, and the unknown-method guard: decided by the interpreted driver table in D5
     fd = prog.fn("cnvlib.segmentation.do_segmentation")
@@ -488,44 +523,108 @@ def d5(chk, prog):
     tb = Table(chk, "ordered-fanout", "do_segmentation: per-arm methods segment every arm once, in order, with the caller's options, 1 or 3 processes alike; whole-array methods the array itself; unknown methods raise",
                fd.loc(), fd.qn)
     arms = [("chr1", "p"), ("chr1", "q"), ("chr2", "p")]
-    for m, procs, save in itertools.product(methods + ["bogus"], [1, 3], [False, True]):
+    cbs_mod, fl_mod = prog.module("cnvlib.segmentation.cbs"), prog.module("cnvlib.segmentation.flasso")
+    scripts = {"cbs": ast.literal_eval(cbs_mod.assigns["CBS_RSCRIPT"]) if "CBS_RSCRIPT" in cbs_mod.assigns else "", "flasso": ast.literal_eval(fl_mod.assigns["FLASSO_RSCRIPT"]) if "FLASSO_RSCRIPT" in fl_mod.assigns else ""}
+    # The private worker runs as written (whatever it is called, however it takes its options); what it does to each arm is recorded where it leaves the module: the
+    # table's drop_low_coverage, smoothing.rolling_outlier_quantile, the segmenters (none / haar / hmm; for the R methods the script written, the Rscript run, the
+    # table read back).  Every arm has a light bin (weight 1/5 < min_weight 1/4): the segmenter sees one bin per arm iff min_weight arrived.
+    for m, procs in itertools.product(methods + ["bogus"], [1, 3]):
+      for save in ((False, True) if m in ("cbs", "flasso") else (False,)):
         W.reset()
         model = Model()
-        calls, concat_args, cols_seen = [], [], []
-        whole = make_ga("CopyNumArray", [dict(chromosome=c, start=i, end=i + 1, gene="g", log2=Term.sym(f"v{i}"), depth=Term.sym(f"d{i}", 0, INF), weight=Fr(1, 2), gc=Fr(2, 5), spread=Fr(1, 10)) for i, (c, _a) in enumerate(arms)], {"sample_id": "S", "part": "whole"}, index="any", exact=True)
-        parts = [make_ga("CopyNumArray", [dict(chromosome=c, start=i, end=i + 1, gene="g", log2=Term.sym(f"v{i}"), depth=Term.sym(f"d{i}", 0, INF), weight=Fr(1, 2), gc=Fr(2, 5), spread=Fr(1, 10))], {"sample_id": "S", "part": f"{c}{a}"}, exact=True) for i, (c, a) in enumerate(arms)]
-        model.method_prims["by_arm"] = lambda it, g, *a, **k: [(f"{c}{a}", p) for (c, a), p in zip(arms, parts)]
+        log, concat_args = [], []
+
+        def bins(idx, part):
+            rows = []
+            for i in idx:
+                c = arms[i][0]
+                for j, w in enumerate((Fr(1, 2), Fr(1, 5))):
+                    rows.append(dict(chromosome=c, start=100 * i + 10 * j, end=100 * i + 10 * j + 10, gene="g", log2=Term.sym(f"v{i}{j}", -10, 10), depth=Term.sym(f"d{i}{j}", 1, INF), weight=w, gc=Fr(2, 5), spread=Fr(1, 10)))
+            return make_ga("CopyNumArray", rows, {"sample_id": "S", "part": part}, index="any", exact=True)
+        whole = bins(range(3), "whole")
+        parts = [bins([i], f"{c}{a}") for i, (c, a) in enumerate(arms)]
+        model.method_prims["by_arm"] = lambda it, g, *a, **k: [(f"{c}{a}", p_) for (c, a), p_ in zip(arms, parts)]
         model.prims["cnvlib.parallel.pick_pool"] = lambda it, n: PoolStub(it, n)
         model.method_hooks.append(pool_hook)
+        all_cols = ("chromosome", "depth", "end", "gc", "gene", "log2", "spread", "start", "weight")
 
-        wfi = prog.fn("cnvlib.segmentation._do_segmentation")
-        wnames = [a.arg for a in wfi.node.args.args]
-        wdefaults = dict(zip(wnames[len(wnames) - len(wfi.node.args.defaults):], [ast.literal_eval(d) for d in wfi.node.args.defaults]))
+        def part_of(g):
+            return g.meta.get("part") if isinstance(g, GA) else None
 
-        def worker(it, *a, calls=calls, **k):
-            # bound like the real _do_segmentation (positional or keyword, its own defaults)
-            b = dict(wdefaults)
-            b.update(zip(wnames, a))
-            b.update(k)
-            cn = b["cnarr"]
-            calls.append((cn.meta.get("part"), b["method"], b["diploid_parx_genome"], repr(b["threshold"]), b["variants"], b["skip_low"], b["skip_outliers"], b["min_weight"],
-                          b["save_dataframe"], b["rscript_path"], b["smooth_cbs"]))
-            # the bins arrive with every column they came with (depth feeds the segments' depth and the null-coverage test, whatever the number of processes)
-            cols_seen.append(tuple(sorted(c_ for c_ in cn.data.cols if not c_.startswith("__"))))
-            out = make_ga("CopyNumArray", [dict(chromosome="chr1", start=0, end=1, gene="-", log2=0, probes=1)], {"sample_id": "S", "segments_of": cn.meta.get("part")}, exact=True)
-            return (out, f"header\nrows of {cn.meta.get('part')}\n") if b["save_dataframe"] else out
-        model.prims["cnvlib.segmentation._do_segmentation"] = worker
+        def low(it, g, *a, log=log, **k):
+            log.append(("low", part_of(g), tuple(sorted(c_ for c_ in g.data.cols if not c_.startswith("__")))))
+            return g
+        model.method_prims["drop_low_coverage"] = low
+
+        def roq(it, x, width, q, factor, log=log):
+            log.append(("outliers", width, q, factor))
+            return Vec([False] * len(x.v))
+        model.prims["cnvlib.smoothing.rolling_outlier_quantile"] = roq
+        seg1 = lambda: make_ga("CopyNumArray", [dict(chromosome="chr1", start=0, end=1, gene="-", log2=0, probes=1)], {}, exact=True)
+
+        def segmenter(kind, qn):
+            names = prog.fn(qn).params[1:]
+
+            def f(it, cn, *a, log=log, **k):
+                # the options as the segmenter's own signature binds them (positional or by keyword)
+                bound = list(a) + [k[nm] for nm in names[len(a):] if nm in k]
+                log.append(("seg", kind, part_of(cn), cn.data.n, tuple(bound), tuple(sorted(c_ for c_ in cn.data.cols if not c_.startswith("__")))))
+                return seg1()
+            return f
+        for kind, qn in (("haar", "cnvlib.segmentation.haar.segment_haar"), ("none", "cnvlib.segmentation.none.segment_none"), ("hmm", "cnvlib.segmentation.hmm.segment_hmm")):
+            model.prims[qn] = segmenter(kind, qn)
+        rcalls = []
+
+        def call_quiet(it, *cmd, log=log, rcalls=rcalls, **k):
+            rcalls.append(cmd[0])
+            log.append(("Rscript", cmd[0], cmd[-1]))
+            return f"header\nrows of R run {len(rcalls)}\n".encode()
+        model.prims["cnvlib.core.call_quiet"] = call_quiet
+
+        def temp_write_text(it, text, *a, log=log, **k):
+            pieces = [p_ for p_ in text.parts if isinstance(p_, str)] if isinstance(text, FStr) else [str(text)]
+            lit = max(pieces, key=len) if pieces else ""
+            which = [k_ for k_, v_ in scripts.items() if v_ and lit in v_]
+            holes = []
+            for h in (text.holes() if isinstance(text, FStr) else []):
+                holes += list(h.values()) if isinstance(h, dict) else [h]             # (`template % mapping`: the values that fill the named placeholders)
+            log.append(("script", which[0] if len(which) == 1 else "?", holes))
+            return "script.R"
+        model.prims["cnvlib.core.temp_write_text"] = temp_write_text
+        model.ext["tempfile.NamedTemporaryFile"] = lambda it, *a, **k: Row({"name": "T", "flush": lambda: None, "__enter__": None})
+
+        def to_csv(it, obj, name, args, kw, log=log):
+            if isinstance(obj, DF) and name == "to_csv":
+                log.append(("bins written", obj.n, tuple(sorted(c_ for c_ in obj.cols if not c_.startswith("__")))))
+                return None
+            if isinstance(obj, bytes) and name == "decode":
+                return obj.decode()
+            return NotImplemented
+        model.method_hooks.append(to_csv)
+        model.ext["io.StringIO"] = lambda it, x="", *a, **k: ("STRINGIO", x)
+
+        def read_back(it, *a, log=log, m=m, **k):
+            log.append(("read", a[1] if len(a) > 1 else k.get("fmt")))
+            if m != "flasso":
+                return seg1()
+            # the fused lasso hands back one fitted row per bin it was given
+            n_ = next((e[1] for e in reversed(log) if e[0] == "bins written"), 1)
+            return make_ga("CopyNumArray", [dict(chromosome="chr1", start=10 * i, end=10 * i + 10, gene="-", log2=Fr(1, 4), probes=1) for i in range(n_)], {}, exact=True)
+        model.prims["skgenome.tabio.read"] = read_back
+        model.prims["cnvlib.segfilters.squash_by_groups"] = lambda it, sa, levels, by_arm=False, **k: sa
+        model.prims["cnvlib.segmentation.transfer_fields"] = lambda it, segarr, cnarr, *a, log=log, **k: log.append(("post", part_of(segarr), part_of(cnarr))) or segarr
 
         def concat(it, g, others, concat_args=concat_args):
             others = list(it.iterate(others))
-            concat_args.append([o.meta.get("segments_of") if isinstance(o, GA) else repr(o)[:40] for o in others])
-            return make_ga("CopyNumArray", [dict(chromosome="chr1", start=0, end=1, gene="-", log2=0, probes=1)], {"sample_id": "S", "segments_of": "concat"}, exact=True)
+            concat_args.append([part_of(o) if isinstance(o, GA) else repr(o)[:40] for o in others])
+            return make_ga("CopyNumArray", [dict(chromosome="chr1", start=0, end=1, gene="-", log2=0, probes=1)], {"sample_id": "S", "part": "concat"}, exact=True)
         model.method_prims["concat"] = concat
         model.method_prims["sort_columns"] = lambda it, g: None
         it = Interp(prog, model)
-        opts = dict(threshold=Fr(3, 1000), variants="VARR", skip_low=True, skip_outliers=7, min_weight=Fr(1, 4), rscript_path="/opt/Rscript", smooth_cbs=True)
+        thr = Fr(3, 1000)
+        variants = "VARR" if m.startswith("hmm") else None           # (re-segmenting on allele frequencies within the segments: C18)
         try:
-            out = it.run(fd.qn, [whole, m, "grch38", opts["threshold"], opts["variants"], opts["skip_low"], opts["skip_outliers"], opts["min_weight"], save, opts["rscript_path"], procs, opts["smooth_cbs"]])
+            out = it.run(fd.qn, [whole, m, "grch38", thr, variants, True, 7, Fr(1, 4), save, "/opt/Rscript", procs, True])
             raised = None
         except Raised as r:
             out, raised = None, str(r)
@@ -533,31 +632,82 @@ def d5(chk, prog):
             tb.undecided.append(f"method={m} processes={procs} save_dataframe={save}: {u}")
             continue
         if m == "bogus":
-            tb.cell(raised is not None and "ValueError" in raised and not calls, dict(method=m, raised=raised, worker_calls=len(calls)))
+            tb.cell(raised is not None and "ValueError" in raised and not log, dict(method=m, raised=raised, steps=len(log)))
             continue
         per_arm = m in ("none", "haar", "cbs")
-        base = ("grch38", repr(Fr(3, 1000)), "VARR", True, 7, Fr(1, 4), save, "/opt/Rscript")
-        if per_arm:
-            want_calls = [(f"{c}{a}", m) + base + (True,) for c, a in arms]
-            ok = calls == want_calls and concat_args == [[f"{c}{a}" for c, a in arms]]
+        want_parts = [f"{c}{a}" for c, a in arms] if per_arm else ["whole"]
+        n_after = 1 if per_arm else 3
+        lows = [e for e in log if e[0] == "low"]
+        outl = [e for e in log if e[0] == "outliers"]
+        problems = []
+        if [e[1] for e in lows] != want_parts:
+            problems.append(f"low-coverage bins dropped for {[e[1] for e in lows]}, expected once for each of {want_parts} (skip_low was asked)")
+        if any(e[2] != all_cols for e in lows):
+            problems.append(f"the bins reach the filters with columns {sorted(set(e[2] for e in lows))}, expected every column they came with")
+        if len(outl) != (3 if per_arm else 2) or any(not (same(e[1], 50) and same(e[2], Fr(95, 100)) and same(e[3], 7)) for e in outl):
+            problems.append(f"outlier filter runs {[(repr(e[1]), repr(e[2]), repr(e[3])) for e in outl]}, expected one per chromosome stretch with width 50, quantile 0.95 and the caller's factor 7")
+        if m in ("none", "haar") or m.startswith("hmm"):
+            segs = [e for e in log if e[0] == "seg"]
+            kind = "hmm" if m.startswith("hmm") else m
+            if [(e[1], e[2], e[3]) for e in segs] != [(kind, p_, n_after) for p_ in want_parts]:
+                problems.append(f"segmenter calls {[(e[1], e[2], e[3]) for e in segs]}, expected {kind} once per {want_parts} on the {n_after} bin(s) left by min_weight")
+            want_args = {"none": (), "haar": (thr,)}.get(m, (m, "grch38", thr, "VARR"))
+            if any(len(e[4]) != len(want_args) or not all(x == y or same(x, y) for x, y in zip(e[4], want_args)) for e in segs):
+                problems.append(f"segmenter arguments {[repr(e[4]) for e in segs]}, expected {want_args!r}")
+            if any(e[5] != all_cols for e in segs):
+                problems.append(f"columns reaching the segmenter {sorted(set(e[5] for e in segs))}")
         else:
-            # smooth_cbs concerns cbs only; the whole-array call may leave it at its default
-            ok = len(calls) == 1 and calls[0][:10] == ("whole", m) + base and not concat_args
-        all_cols = ("chromosome", "depth", "end", "gc", "gene", "log2", "spread", "start", "weight")
-        ok = ok and all(cs == all_cols for cs in cols_seen)
+            runs = len(want_parts)
+            sc = [e for e in log if e[0] == "script"]
+            if [e[1] for e in sc] != [m] * runs:
+                problems.append(f"scripts written: {[e[1] for e in sc]}, expected {m} x {runs}")
+            if any(not (e[2] and any(same(h, thr) for h in e[2] if not isinstance(h, (str, bool))) and (m != "cbs" or any(h is True for h in e[2]))) for e in sc):
+                problems.append(f"script placeholders filled with {[repr(e[2])[:80] for e in sc]}, expected the caller's threshold (and smooth_cbs for cbs)")
+            if [e[1] for e in log if e[0] == "Rscript"] != ["/opt/Rscript"] * runs or any(e[2] != "script.R" for e in log if e[0] == "Rscript"):
+                problems.append(f"R runs {[e[1:] for e in log if e[0] == 'Rscript']}, expected the caller's Rscript on the script written, once per {want_parts}")
+            wr = [e for e in log if e[0] == "bins written"]
+            if [e[1] for e in wr] != [n_after] * runs or any(e[2] != all_cols for e in wr):
+                problems.append(f"bins handed to R: {[e[1:] for e in wr]}, expected {n_after} bin(s) per run with every column")
+            if [e[1] for e in log if e[0] == "read"] != ["seg"] * runs:
+                problems.append("the R output is not read back as SEG once per run")
+        post = [e for e in log if e[0] == "post"]
+        if [e[2] for e in post] != want_parts:
+            problems.append(f"post-processing against the bins of {[e[2] for e in post]}, expected {want_parts}")
+        if per_arm and concat_args != [want_parts]:
+            problems.append(f"parts combined: {concat_args}, expected {want_parts} in this order")
+        if not per_arm and concat_args:
+            problems.append("a whole-array method's result is concatenated")
         res = out[0] if (save and isinstance(out, tuple)) else out
-        ok = ok and raised is None and isinstance(res, GA) and res.meta.get("segments_of") == ("concat" if per_arm else "whole")
+        if raised is not None or not isinstance(res, GA) or (per_arm and part_of(res) != "concat"):
+            problems.append(f"result {repr(res)[:60]} raised={raised}")
         if save and raised is None:
-            ok = ok and isinstance(out, tuple) and len(out) == 2 and (out[1] == ("header\n" + "".join(f"rows of {c}{a}\n" for c, a in arms)) if per_arm else out[1] == "header\nrows of whole\n")
-        tb.cell(ok, dict(method=m, processes=procs, save_dataframe=save, worker_calls=[c[:2] for c in calls], concat=concat_args, columns_reaching_the_worker=sorted(set(cols_seen)), raised=raised))
+            want_text = "header\n" + "".join(f"rows of R run {k_ + 1}\n" for k_ in range(len(want_parts)))
+            if not (isinstance(out, tuple) and len(out) == 2 and out[1] == want_text):
+                problems.append(f"saved R dataframe text {out[1]!r:.80}, expected the header once and every run's rows in order")
+        tb.cell(not problems, dict(method=m, processes=procs, save_dataframe=save, problems=problems[:4], steps=[repr(e)[:50] for e in log[:6]]))
     tb.done("do_segmentation does not segment every arm (or the whole array) exactly once, in order, with the caller's options, or combines the parts out of order")
 
 
 def d6(chk, prog):
-    chk.clause("D6", "the caller's array is never mutated by do_segmentation / _do_segmentation")
+    chk.clause("D6", "the caller's array is never mutated by do_segmentation or the functions of its module the bins are handed to")
     eff = Effects(prog)
     atomic = C10._atomic(prog)
-    for qn in ("cnvlib.segmentation.do_segmentation", "cnvlib.segmentation._do_segmentation", "cnvlib.segmentation.drop_outliers", "cnvlib.segmentation.none.segment_none"):
+    # do_segmentation, the function(s) of its module it hands its own first parameter to as first argument (the per-table worker, found by that role, whatever its name),
+    # and the two public helpers that may receive the caller's table unfiltered.  (Observed as well: D3b / D4 compare the caller's table before and after each run.)
+    res_ = Resolver(prog)
+    fd = prog.fn(DOSEG)
+    qns = [fd.qn]
+    bins_param = fd.params[0] if fd.params else None
+    for n in own_nodes(fd.node):
+        if isinstance(n, ast.Call) and n.args and isinstance(n.args[0], ast.Name) and n.args[0].id == bins_param:
+            for c in res_.resolve_call(n, fd):
+                if c.mod.startswith("cnvlib.segmentation") and c.qn not in qns:
+                    qns.append(c.qn)
+    for extra in ("cnvlib.segmentation.drop_outliers", "cnvlib.segmentation.none.segment_none"):
+        if prog.maybe_fn(extra) is not None and extra not in qns:
+            qns.append(extra)
+    chk.floor("functions under do_segmentation checked for argument mutation", len(qns), 1)
+    for qn in qns:
         fi = prog.fn(qn)
         bad = []
         for p in sorted(eff.sum[qn].mut):
